@@ -69,7 +69,22 @@ fn invalid_path(rng: &mut Rng, tree: &Node, valid: &[String], order: &[usize]) -
             0 => { let o = rng.pick(&objects).clone(); let p = format!("{}/no-such-member", o); return (p, pos, "unknown-member", true); }
             1 => { if arrays.is_empty() { continue; } let (a, n) = rng.pick(&arrays).clone(); return (format!("{}/{}", a, n + rng.below(3)), pos, "index-out-of-range", true); }
             2 => { if arrays.is_empty() { continue; } let (a, _) = rng.pick(&arrays).clone(); let bad = *rng.pick(&["x", "-1", " 1", "1.0", "", "0x0", "99999999999999999999999", "１"]); return (format!("{}/{}", a, bad), pos, "non-numeric-index", true); }
-            3 => { let p = rng.pick(&["name", "", "a/b".trim_start_matches('/'), "0"]).to_string(); if p.contains('/') { continue; } return (p, pos, "no-leading-slash", true); }
+            3 => {
+                // no leading slash: a bare name, or (every other time) a pointer of two or more segments without
+                // its first character - an existing one, or an existing member name in front of an existing pointer,
+                // so that whatever follows the first '/' addresses something
+                if rng.chance(1, 2) {
+                    let mut cands: Vec<String> = valid.iter().chain(objects.iter()).filter(|p| p.matches('/').count() >= 2).map(|p| p[1..].to_string()).collect();
+                    for v in valid.iter().chain(objects.iter()).filter(|p| p.matches('/').count() == 1) {
+                        for o in objects.iter().filter(|o| o.matches('/').count() == 1) { cands.push(format!("{}{}", &o[1..], v)); }
+                        cands.push(format!("x{}", v));
+                    }
+                    if cands.is_empty() { continue; }
+                    return (rng.pick(&cands).clone(), pos, "no-leading-slash", true);
+                }
+                let p = rng.pick(&["name", "", "0"]).to_string();
+                return (p, pos, "no-leading-slash", true);
+            }
             4 => {
                 // a path inside a claim that an earlier path has already hidden
                 if valid.is_empty() { continue; }
